@@ -54,6 +54,18 @@ impl std::io::Write for CheckingOut {
                     self.mismatch = true;
                 }
             }
+            #[cfg(verif_native)]
+            {
+                // native replay: compare every byte of this slice, not only the solver-chosen position
+                let mut b = 0;
+                while b < len {
+                    let pos = self.n + k + b;
+                    if pos >= self.expected.len() || bufs[i][b] != self.expected.as_bytes()[pos] {
+                        self.mismatch = true;
+                    }
+                    b += 1;
+                }
+            }
             k += len;
             i += 1;
         }
@@ -107,6 +119,21 @@ impl Entry for E {
 fn out(expected: &'static str) -> CheckingOut {
     CheckingOut { expected, n: 0, calls: 0, mismatch: false }
 }
+/// Under the solver the recording stubs print every integer as the token "7", so the templates are the expected text.
+/// In a native replay (`--cfg verif_native`, no stubs) the real itoa prints the real numbers: the expected text is the
+/// template with the token after each marker replaced by the number the entry carries.
+#[cfg(not(verif_native))]
+fn expected_text(template: &'static str, _subst: &[(&str, u64)]) -> &'static str {
+    template
+}
+#[cfg(verif_native)]
+fn expected_text(template: &'static str, subst: &[(&str, u64)]) -> &'static str {
+    let mut s = template.to_string();
+    for (marker, v) in subst {
+        s = s.replacen(&format!("{marker}7"), &format!("{marker}{v}"), 1);
+    }
+    Box::leak(s.into_boxed_str())
+}
 fn exact(o: &CheckingOut) -> bool {
     o.calls == 1 && o.n == o.expected.len() && !o.mismatch
 }
@@ -131,11 +158,12 @@ pub fn whole_format_metric_and_string() {
     let mut emf = hooks::emf_small(false, false);
     let v: u64 = kani::any();
     let e = E { items: [("A", V::Unsigned(v)), ("B", V::Str)], n: 2 };
-    let mut o = out(T_METRIC_A_STRING_B);
+    let mut o = out(expected_text(T_METRIC_A_STRING_B, &[("\"A\":", v)]));
     let r = emf.format(&e, &mut o);
     kani::cover!(v > 1 << 60, "large value");
     assert!(r.is_ok(), "a well-formed entry is accepted");
     assert!(exact(&o), "exactly the expected record, byte for byte, in one write");
+    #[cfg(not(verif_native))]
     unsafe {
         assert!(stubs::INT_N == 2 && stubs::INT_LOG[0] == v as u128 && stubs::INT_LOG[1] == 7, "two integers formatted: the value, then the timestamp in epoch milliseconds");
     }
@@ -224,11 +252,12 @@ pub fn whole_format_sampled() {
     let v: u64 = kani::any();
     let m: u64 = kani::any();
     let e = E { items: [("A", V::Unsigned(v)), ("A", V::Str)], n: 1 };
-    let mut o = out(T_SAMPLED_A);
+    let mut o = out(expected_text(T_SAMPLED_A, &[("\"Values\":[", v), ("\"Counts\":[", m)]));
     let r = hooks::format_with_multiplicity(&mut emf, &e, &mut o, Some(m));
     kani::cover!(m > 1, "weight above one");
     assert!(r.is_ok());
     assert!(exact(&o), "exactly the histogram-form record");
+    #[cfg(not(verif_native))]
     unsafe {
         assert!(stubs::INT_N == 3 && stubs::INT_LOG[0] == v as u128 && stubs::INT_LOG[1] == m as u128 && stubs::INT_LOG[2] == 7, "value, count = multiplicity, timestamp");
     }
@@ -276,8 +305,9 @@ fn second_entry_after(first_fails_io: bool) {
         let r = emf.format(&e1, &mut o);
         assert!(r.is_ok() && o.calls == 1);
     }
-    let e2 = E { items: [("A", V::Unsigned(kani::any())), ("B", V::Str)], n: 2 };
-    let mut o2 = out(T_METRIC_A_STRING_B);
+    let v2: u64 = kani::any();
+    let e2 = E { items: [("A", V::Unsigned(v2)), ("B", V::Str)], n: 2 };
+    let mut o2 = out(expected_text(T_METRIC_A_STRING_B, &[("\"A\":", v2)]));
     let r2 = emf.format(&e2, &mut o2);
     kani::cover!(true, "second call reached");
     assert!(r2.is_ok(), "same accept/reject decision as a fresh formatter");
